@@ -39,6 +39,11 @@ BASE_CONTEXT = ("IMPORTANT CONTEXT: this worktree is NOT the upstream code: it a
                 "or in how a function passes arguments to a helper.\n\n")
 
 STEERS = {
+    "10": "The maintainers recently repaired a number of defects (`git log --oneline | grep fix:` in the worktree lists them, `git show <commit>` shows each repair). Prefer a change that UNDOES OR WEAKENS ONE OF THOSE REPAIRS in a way "
+          "a later refactor plausibly would - written differently from the original defect (do not simply revert the commit): the guard kept but its condition narrowed, the repaired expression 'simplified' into something "
+          "that is right only for the common input, the fix applied to one of the sibling functions / branches / operators but not the other, the repaired line moved after the point where the value is used, a helper introduced "
+          "that drops the detail the repair added. If no repair touches code your property depends on, make a change in a code path that is NOT the main one (optional argument, second polarisation, noise component, error path, "
+          "a value returned alongside the main result).",
     "9": "Prefer a change in a code path that is NOT the main one: the branch of an optional argument (retH, BW given, fs given, return_seed, sps_resamp omitted, a non-default pulse shape or decision mode), the handling of the second "
          "polarisation / of the noise component / of a plain ndarray or list input instead of a signal object, an error path (which exception is raised, or none), something returned alongside the main result (the second element "
          "of a returned tuple, an attribute of the returned object), or the interplay of two public functions the property relates (a round trip, a composition, one function's output fed to the other, two siblings that must agree).",
